@@ -90,6 +90,7 @@ package bbolt
 //@ uninterp func bufpage(arr int, off int, id common.Pgid) *common.Page
 //@ axiom [bufpage.inj] forall a int, o int, i common.Pgid, j common.Pgid :: i != j ==> bufpage(a, o, i) != bufpage(a, o, j)
 //@ axiom [metaof.inj] forall p *common.Page, q *common.Page :: p != q ==> metaof(p) != metaof(q)
+//@ axiom [metaof.view] forall p *common.Page :: interior(p) ==> interior(metaof(p))     -- the meta behind a page header that lives inside a buffer lives inside that buffer
 
 //@ func (*DB).pageInBuffer
 //@   trusted
@@ -613,3 +614,238 @@ package bbolt
 //@ F [writeat.callers] props C17 C06 C01 : callers struct_writeAt.writeAt subset bbolt.(*Tx).write, bbolt.(*Tx).writeMeta, bbolt.(*DB).init
 //@ F [flock.callers] props C17 : callers bbolt.flock subset bbolt.Open
 //@ F [funlock.callers] props C17 : callers bbolt.funlock subset bbolt.(*DB).close
+
+// ---------------------------------------------------------------- C14: hot backup
+
+//@ func (*Tx).Size
+//@   props C14
+//@   requires tx.meta != nil && tx.db != nil
+//@   ensures result == wrapint(wrapint(tx.meta.pgid) * tx.db.pageSize)
+//@   modifies nothing
+
+//@ func (*Tx).WriteTo
+//@   returns (n, err)
+//@   props C14
+//@   requires tx.db != nil && tx.meta != nil && tx.db.file != nil && tx.db.pageSize >= 512 && tx.db.pageSize <= 16777216
+//@   requires tx.meta.txid >= 1 && tx.meta.pgid >= 2 && tx.meta.pgid * tx.db.pageSize <= 281474976710655 && metavalid(tx.meta) && isobject(tx.meta)
+//@   callback ensures true
+//@   ensures [size] err == nil ==> n == tx.meta.pgid * tx.db.pageSize && wbytes == old(wbytes) + n
+//@   ensures [meta0] err == nil ==> (let k := old(wcount) in wpageid[k] == 0 && wflags[k] == common.MetaPageFlag && wlen[k] == tx.db.pageSize && wtxid[k] == tx.meta.txid && wroot[k] == tx.meta.root.root && wfreelist[k] == tx.meta.freelist && wpgid[k] == tx.meta.pgid && wvalid[k])
+//@   ensures [meta1] err == nil ==> (let k := old(wcount) + 1 in wpageid[k] == 1 && wflags[k] == common.MetaPageFlag && wlen[k] == tx.db.pageSize && wtxid[k] == tx.meta.txid - 1 && wroot[k] == tx.meta.root.root && wfreelist[k] == tx.meta.freelist && wpgid[k] == tx.meta.pgid && wvalid[k])
+//@   ensures [data] err == nil ==> sroff == 2 * tx.db.pageSize && srlen == tx.meta.pgid * tx.db.pageSize - 2 * tx.db.pageSize && copyn == srlen
+//@   ensures [source] err == nil && tx.WriteFlag == 0 ==> srfile == tx.db.file
+//@   ensures [unchanged] tx.meta.txid == old(tx.meta.txid) && tx.meta.pgid == old(tx.meta.pgid) && tx.meta.checksum == old(tx.meta.checksum)
+//@   skip tx.go:431 because the buffer was just made with pageSize >= 512 bytes; make() of a symbolic size is not tracked by the slice-length model after the callback havoc
+
+// ---------------------------------------------------------------- C04: bucket API (error paths, what is written at the leaf)
+
+//@ func cloneBytes
+//@   trusted
+//@   ensures len(result) == len(v) && bytesval(result) == bytesval(v) && (len(v) > 0 ==> result != nil)
+//@   modifies nothing
+
+//@ func (*Cursor).seek
+//@   opaque
+//@   returns (key, value, flags)
+//@   ensures c.bucket == old(c.bucket) && len(c.stack) >= 1 && (c.stack[len(c.stack)-1].node != nil || c.stack[len(c.stack)-1].page != nil) && c.stack[len(c.stack)-1].index >= 0
+//@   modifies c.stack, all("elemRef.page"), all("elemRef.node"), all("elemRef.index"), all("TxStats.CursorCount")
+
+//@ func (*Cursor).node
+//@   opaque
+//@   ensures result != nil
+//@   modifies all("elemRef.node"), all("elemRef.page"), all("node.children"), all("node.inodes"), all("node.key"), all("node.pgid"), all("node.isLeaf"), all("node.parent"), all("node.bucket"), all("node.unbalanced"), all("node.spilled"), allmaps("common.Pgid", "*bbolt.node"), all("Bucket.rootNode"), all("TxStats.NodeCount"), all("Inode.key"), all("Inode.value"), all("Inode.flags"), all("Inode.pgid")
+
+//@ func (*node).put
+//@   opaque
+//@   modifies n.inodes, all("Inode.key"), all("Inode.value"), all("Inode.flags"), all("Inode.pgid")
+
+//@ func (*node).del
+//@   opaque
+//@   modifies n.inodes, n.unbalanced, all("Inode.key"), all("Inode.value"), all("Inode.flags"), all("Inode.pgid")
+
+//@ func (*Bucket).node
+//@   opaque
+//@   ensures result != nil && b.rootNode != nil && b.InBucket == old(b.InBucket) && b.tx == old(b.tx)
+//@   ensures b.InBucket.sequence == old(b.InBucket.sequence) && b.InBucket.root == old(b.InBucket.root)
+
+//@ func (*Bucket).Put
+//@   returns (err)
+//@   props C04 C15
+//@   requires b != nil && b.tx != nil
+//@   ensures [closed] old(b.tx.db) == nil ==> err == berrors.ErrTxClosed
+//@   ensures [readonly] old(b.tx.db) != nil && !old(b.tx.writable) ==> err == berrors.ErrTxNotWritable
+//@   ensures [keyrequired] old(b.tx.db) != nil && old(b.tx.writable) && len(key) == 0 ==> err == berrors.ErrKeyRequired
+//@   ensures [keytoolarge] old(b.tx.db) != nil && old(b.tx.writable) && len(key) > 32768 ==> err == berrors.ErrKeyTooLarge
+//@   ensures [valuetoolarge] old(b.tx.db) != nil && old(b.tx.writable) && len(key) >= 1 && len(key) <= 32768 && len(value) > 2147483646 ==> err == berrors.ErrValueTooLarge
+//@   ensures [noerrwrite] err != nil ==> callstotal("(*node).put") == old(callstotal("(*node).put")) && callstotal("(*node).del") == old(callstotal("(*node).del"))
+//@   ensures [written] err == nil ==> callstotal("(*node).put") == old(callstotal("(*node).put")) + 1 && lastarg("(*node).put", 1) == old(bytesval(key)) && lastarg("(*node).put", 2) == old(bytesval(key)) && lastarg("(*node).put", 3) == old(bytesval(value)) && lastarg("(*node).put", 4) == 0 && lastarg("(*node).put", 5) == 0
+//@   ensures [accepts] old(b.tx.db) != nil && old(b.tx.writable) && len(key) >= 1 && len(key) <= 32768 && len(value) <= 2147483646 ==> err == nil || err == berrors.ErrIncompatibleValue
+
+//@ func (*Bucket).Delete
+//@   returns (err)
+//@   props C04
+//@   requires b != nil && b.tx != nil
+//@   ensures [closed] old(b.tx.db) == nil ==> err == berrors.ErrTxClosed
+//@   ensures [readonly] old(b.tx.db) != nil && !old(b.tx.writable) ==> err == berrors.ErrTxNotWritable
+//@   ensures [noerrwrite] err != nil ==> callstotal("(*node).del") == old(callstotal("(*node).del")) && callstotal("(*node).put") == old(callstotal("(*node).put"))
+//@   ensures [deleted] callstotal("(*node).del") != old(callstotal("(*node).del")) ==> callstotal("(*node).del") == old(callstotal("(*node).del")) + 1 && lastarg("(*node).del", 1) == old(bytesval(key)) && err == nil
+//@   ensures [okorincompat] old(b.tx.db) != nil && old(b.tx.writable) ==> err == nil || err == berrors.ErrIncompatibleValue
+
+//@ func (*Bucket).SetSequence
+//@   props C04 C15
+//@   requires b != nil && b.tx != nil && b.InBucket != nil
+//@   ensures [closed] old(b.tx.db) == nil ==> result == berrors.ErrTxClosed
+//@   ensures [readonly] old(b.tx.db) != nil && !old(b.tx.writable) ==> result == berrors.ErrTxNotWritable
+//@   ensures [set] old(b.tx.db) != nil && old(b.tx.writable) ==> result == nil && b.InBucket.sequence == v && b.rootNode != nil
+//@   ensures [unchanged] result != nil ==> b.InBucket.sequence == old(b.InBucket.sequence)
+
+//@ func (*Bucket).NextSequence
+//@   returns (seq, err)
+//@   props C04
+//@   requires b != nil && b.tx != nil && b.InBucket != nil
+//@   ensures [closed] old(b.tx.db) == nil ==> err == berrors.ErrTxClosed && seq == 0
+//@   ensures [readonly] old(b.tx.db) != nil && !old(b.tx.writable) ==> err == berrors.ErrTxNotWritable && seq == 0
+//@   ensures [next] old(b.tx.db) != nil && old(b.tx.writable) ==> err == nil && seq == wrapu64(old(b.InBucket.sequence) + 1) && b.InBucket.sequence == seq && b.rootNode != nil
+//@   ensures [unchanged] err != nil ==> b.InBucket.sequence == old(b.InBucket.sequence)
+
+//@ func (*Bucket).Get
+//@   props C04
+//@   requires b != nil && b.tx != nil
+//@   ensures [notbucketvalue] callstotal("(*node).put") == old(callstotal("(*node).put")) && callstotal("(*node).del") == old(callstotal("(*node).del"))
+
+// ---------------------------------------------------------------- C05: cursors
+
+//@ func (*Bucket).pageNode
+//@   opaque
+//@   returns (p, n)
+//@   ensures (p != nil || n != nil)
+//@   modifies nothing
+
+//@ func (*Cursor).first
+//@   opaque
+//@   returns (key, value, flags)
+//@   ensures c.bucket == old(c.bucket) && len(c.stack) >= 1 && (c.stack[len(c.stack)-1].node != nil || c.stack[len(c.stack)-1].page != nil)
+//@   ensures flags % 2 == 1 ==> value == nil
+//@   modifies c.stack, all("elemRef.page"), all("elemRef.node"), all("elemRef.index")
+
+//@ func (*Cursor).next
+//@   opaque
+//@   returns (key, value, flags)
+//@   ensures c.bucket == old(c.bucket) && len(c.stack) >= 1 && (c.stack[len(c.stack)-1].node != nil || c.stack[len(c.stack)-1].page != nil)
+//@   modifies c.stack, all("elemRef.page"), all("elemRef.node"), all("elemRef.index")
+
+//@ func (*Cursor).prev
+//@   returns (key, value, flags)
+//@   props C05
+//@   requires c != nil && len(c.stack) >= 1
+//@   ensures [stack] c.bucket == old(c.bucket) && len(c.stack) >= 1
+//@   ensures [beginning] callstotal("(*Cursor).first") != old(callstotal("(*Cursor).first")) ==> key == nil && value == nil && flags == 0
+//@   ensures [moved] callstotal("(*Cursor).first") == old(callstotal("(*Cursor).first")) ==> lastret("(*Cursor).prevElem", 0)
+//@   modifies c.stack, all("elemRef.page"), all("elemRef.node"), all("elemRef.index")
+
+//@ func (*Cursor).prevElem
+//@   opaque
+//@   ensures c.bucket == old(c.bucket) && len(c.stack) >= 1
+//@   ensures c.stack[len(c.stack)-1].node != nil || c.stack[len(c.stack)-1].page != nil
+//@   ensures result ==> elemcount(c.stack[len(c.stack)-1]) > 0 && 0 <= c.stack[len(c.stack)-1].index && c.stack[len(c.stack)-1].index < elemcount(c.stack[len(c.stack)-1])
+//@   modifies c.stack, all("elemRef.page"), all("elemRef.node"), all("elemRef.index")
+
+//@ func (*Cursor).last
+//@   opaque
+//@   ensures c.bucket == old(c.bucket) && len(c.stack) >= 1
+//@   modifies c.stack, all("elemRef.page"), all("elemRef.node"), all("elemRef.index")
+
+// number of elements of the page/node an elemRef points to (elemRef.count)
+//@ pure func elemcount(r *elemRef) int = r.node != nil ? len(r.node.inodes) : r.page.count
+
+//@ func (*Cursor).keyValue
+//@   returns (key, value, flags)
+//@   props C05 C04
+//@   requires c != nil && len(c.stack) >= 1
+//@   requires let r := c.stack[len(c.stack)-1] in (r.node != nil || r.page != nil) && (r.index >= 0 || elemcount(r) == 0)
+//@   ensures [end] (let r := c.stack[len(c.stack)-1] in elemcount(r) == 0 || r.index >= elemcount(r)) ==> key == nil && value == nil && flags == 0
+//@   ensures [node] (let r := c.stack[len(c.stack)-1] in r.node != nil && elemcount(r) > 0 && r.index < elemcount(r)) ==> (let r := c.stack[len(c.stack)-1] in key == r.node.inodes[r.index].key && value == r.node.inodes[r.index].value && flags == r.node.inodes[r.index].flags)
+//@   modifies nothing
+
+//@ func (*Cursor).First
+//@   returns (key, value)
+//@   props C05
+//@   requires c != nil && c.bucket != nil && c.bucket.tx != nil && c.bucket.tx.db != nil
+//@   ensures [bucketnil] lastret("(*Cursor).first", 2) % 2 == 1 ==> value == nil
+//@   ensures [once] callstotal("(*Cursor).first") == old(callstotal("(*Cursor).first")) + 1
+
+//@ func (*Cursor).Next
+//@   returns (key, value)
+//@   props C05
+//@   requires c != nil && c.bucket != nil && c.bucket.tx != nil && c.bucket.tx.db != nil
+//@   ensures [bucketnil] lastret("(*Cursor).next", 2) % 2 == 1 ==> value == nil
+//@   ensures [once] callstotal("(*Cursor).next") == old(callstotal("(*Cursor).next")) + 1 && callstotal("(*Cursor).prev") == old(callstotal("(*Cursor).prev"))
+
+//@ func (*Cursor).Prev
+//@   returns (key, value)
+//@   props C05
+//@   requires c != nil && c.bucket != nil && c.bucket.tx != nil && c.bucket.tx.db != nil && len(c.stack) >= 1
+//@   ensures [bucketnil] lastret("(*Cursor).prev", 2) % 2 == 1 ==> value == nil
+//@   ensures [once] callstotal("(*Cursor).prev") == old(callstotal("(*Cursor).prev")) + 1 && callstotal("(*Cursor).next") == old(callstotal("(*Cursor).next"))
+
+//@ func (*Cursor).Seek
+//@   returns (key, value)
+//@   props C05
+//@   requires c != nil && c.bucket != nil && c.bucket.tx != nil && c.bucket.tx.db != nil
+//@   ensures [bucketnil] callstotal("(*Cursor).next") != old(callstotal("(*Cursor).next")) && lastret("(*Cursor).next", 2) % 2 == 1 ==> value == nil
+//@   ensures [bucketnilseek] callstotal("(*Cursor).next") == old(callstotal("(*Cursor).next")) && lastret("(*Cursor).seek", 2) % 2 == 1 ==> value == nil
+//@   ensures [atmostonenext] callstotal("(*Cursor).next") <= old(callstotal("(*Cursor).next")) + 1
+
+//@ func (*Cursor).Delete
+//@   props C05 C04
+//@   requires c != nil && c.bucket != nil && c.bucket.tx != nil && len(c.stack) >= 1
+//@   requires let r := c.stack[len(c.stack)-1] in (r.node != nil || r.page != nil) && (r.index >= 0 || elemcount(r) == 0)
+//@   ensures [closed] old(c.bucket.tx.db) == nil ==> result == berrors.ErrTxClosed
+//@   ensures [readonly] old(c.bucket.tx.db) != nil && !old(c.bucket.tx.writable) ==> result == berrors.ErrTxNotWritable
+//@   ensures [noerrwrite] result != nil ==> callstotal("(*node).del") == old(callstotal("(*node).del"))
+//@   ensures [bucketentry] lastret("(*Cursor).keyValue", 2) % 2 == 1 && old(c.bucket.tx.db) != nil && old(c.bucket.tx.writable) ==> result == berrors.ErrIncompatibleValue
+
+// ---------------------------------------------------------------- C15: compaction callback (per entry of the source)
+
+//@ func (*Bucket).Bucket
+//@   opaque
+//@   ensures b.tx == old(b.tx)
+//@   modifies mapof(b.buckets), all("TxStats.CursorCount")
+
+//@ func (*Bucket).CreateBucket
+//@   opaque
+//@   returns (rb, err)
+//@   ensures err == nil ==> rb != nil && rb.tx == b.tx && rb.InBucket != nil
+//@   ensures err != nil ==> rb == nil
+
+//@ func Compact$2
+//@   returns (res)
+//@   props C15
+//@   requires tx != nil && tx.root.tx == tx && dst != nil && len(k) <= 2147483647 && len(v) <= 2147483647 && size >= 0 && size <= 4611686018427387904 && txMaxSize >= 0
+//@   skip pre/Commit because the destination transaction satisfies Commit's preconditions by the DB invariant (it was obtained from dst.Begin(true) and only used through the public API)
+//@   skip nopanic/Commit because see pre/Commit
+//@   skip pre/Begin because see pre/Commit
+//@   skip pre/Put because the bucket reached by descending keys exists in the destination by the order in which walk visits the source (parents first: A-tree)
+//@   skip pre/SetSequence because see pre/Put
+//@   skip pre/keyValue because see pre/Put
+//@   ensures [split] old(size) + len(k) + len(v) > txMaxSize && txMaxSize != 0 && res == nil ==> callstotal("(*Tx).Commit") == old(callstotal("(*Tx).Commit")) + 1 && callstotal("(*DB).Begin") == old(callstotal("(*DB).Begin")) + 1 && size == len(k) + len(v)
+//@   ensures [nosplit] (old(size) + len(k) + len(v) <= txMaxSize || txMaxSize == 0) ==> callstotal("(*Tx).Commit") == old(callstotal("(*Tx).Commit")) && callstotal("(*DB).Begin") == old(callstotal("(*DB).Begin")) && size == old(size) + len(k) + len(v)
+//@   ensures [begindst] callstotal("(*DB).Begin") != old(callstotal("(*DB).Begin")) ==> lastarg("(*DB).Begin", 0) == dst && lastarg("(*DB).Begin", 1)
+//@   ensures [keyvalue] v != nil && len(keys) >= 1 && res == nil ==> callstotal("(*Bucket).Put") == old(callstotal("(*Bucket).Put")) + 1 && ((old(size) + len(k) + len(v) <= txMaxSize || txMaxSize == 0) ==> lastarg("(*Bucket).Put", 1) == old(bytesval(k)) && lastarg("(*Bucket).Put", 2) == old(bytesval(v))) && callstotal("(*Bucket).CreateBucket") == old(callstotal("(*Bucket).CreateBucket"))
+//@   ensures [bucket] v == nil && res == nil ==> callstotal("(*Bucket).CreateBucket") == old(callstotal("(*Bucket).CreateBucket")) + 1 && ((old(size) + len(k) + len(v) <= txMaxSize || txMaxSize == 0) ==> lastarg("(*Bucket).CreateBucket", 1) == old(bytesval(k))) && callstotal("(*Bucket).SetSequence") == old(callstotal("(*Bucket).SetSequence")) + 1 && lastarg("(*Bucket).SetSequence", 1) == seq && callstotal("(*Bucket).Put") == old(callstotal("(*Bucket).Put"))
+//@   ensures [fill] v != nil && len(keys) >= 1 && res == nil ==> lastarg("(*Bucket).Put", 0) != 0
+
+//@ func walk
+//@   opaque
+//@   invokes walkFn
+//@   ensures callstotal("(*Tx).Commit") >= old(callstotal("(*Tx).Commit"))
+
+//@ func Compact$1
+//@   props C15
+//@   requires tx != nil && !tx.managed
+//@   requires tx.db != nil && tx.writable ==> tx.db.rwlock.held && tx.meta != nil && tx.db.freelist != nil
+//@   requires tx.db != nil && !tx.writable ==> tx.db.mmaplock.rcount >= 1 && tx.meta != nil && !tx.db.metalock.held
+//@   ensures [rolledback] callstotal("(*Tx).Rollback") == old(callstotal("(*Tx).Rollback")) + 1 && lastarg("(*Tx).Rollback", 0) == old(tx)
+
+//@ F [compact.src.readonly] props C15 : noreach bbolt.walk* : bbolt.(*Bucket).Put, bbolt.(*Bucket).Delete, bbolt.(*Bucket).CreateBucket, bbolt.(*Bucket).CreateBucketIfNotExists, bbolt.(*Bucket).DeleteBucket, bbolt.(*Bucket).MoveBucket, bbolt.(*Bucket).SetSequence, bbolt.(*Bucket).NextSequence, bbolt.(*DB).Update, bbolt.(*DB).Batch, bbolt.(*Tx).Commit, bbolt.(*Cursor).Delete
+//@ F [compact.src.view] props C15 : callers bbolt.walkBucket subset bbolt.walk, bbolt.walkBucket
